@@ -528,7 +528,8 @@ impl<'r> Renderer<'r> {
                 self.out.push(' ');
                 self.ev.push(SEv::Scalar { v: String::new(), style: ScalarStyle::Plain, aid: 0, tag: None });
             } else {
-                self.flow_sep(false, block_n, true);
+                // the key may start on a later line
+                self.flow_sep(multi, block_n, true);
                 self.flow_node(k, block_n, false);
             }
             if null_plain(v) && self.r.chance(1, 2) {
@@ -596,7 +597,8 @@ impl<'r> Renderer<'r> {
                             self.flow_value_after_colon(v, block_n, multi, false);
                         }
                     } else if self.r.chance(1, 4) {
-                        self.out.push_str("? ");
+                        self.out.push('?');
+                        self.flow_sep(multi, block_n, true);
                         self.note("flow-explicit-key");
                         self.flow_node(k, block_n, false);
                         self.out.push(' ');
